@@ -457,7 +457,16 @@ def check_enum_start(R, prog):
                 else:
                     R.bad(F("ENUM-START", fi, "%s enumerate start" % fi.qualname,
                             "variable names must be numbered from 1 (enumerate(..., start=1)); found %s" % src(c), c))
-    R.floor("ENUM-START", n, 3)
+    # the numbering itself is compared by the folded writers (WRITER-SEMANTICS: the `varname` lines / the LaTeX literal table read back);
+    # when they confirm it, a serialiser that counts in another way than enumerate(.., start=1) is no vacuous pass
+    from . import _writer_fold
+    sems = [_writer_fold.verdict(prog, w) for w in ("dimacs", "opb", "latex")]
+    for w, v in zip(("to_dimacs_file", "to_opb_file", "_print_latex"), sems):
+        if v[0] is True:
+            R.ok("ENUM-START", "%s: names numbered from 1 (%s)" % (w, v[1][:80]), "cnfgen.utils")
+        elif v[0] is False:
+            R.bad(F("ENUM-START", None, "%s numbering of names" % w, v[1]))
+    R.floor("ENUM-START", n, 1 if all(v[0] is True for v in sems) else 3)
 
 
 def check_index_order(R, prog):
